@@ -120,6 +120,13 @@ pub trait IterHandle {
     fn v_rposition(&self, target: usize) -> Option<usize>;
     fn v_find(&self, target: usize) -> Item;
     fn v_rfind(&self, target: usize) -> Item;
+    // in place (`&mut self` methods that stop early and leave the rest for later calls)
+    fn any_is(&mut self, target: usize) -> bool;
+    fn all_not(&mut self, target: usize) -> bool;
+    fn find_ip(&mut self, target: usize) -> Item;
+    fn rfind_ip(&mut self, target: usize) -> Item;
+    fn position_ip(&mut self, target: usize) -> Option<usize>;
+    fn rposition_ip(&mut self, target: usize) -> Option<usize>;
     /// clone.cycle().take(t)
     fn v_cycle_take(&self, t: usize) -> Vec<Item>;
     /// clone.zip(clone.rev()) as (front item, back item) pairs, flattened
@@ -304,6 +311,32 @@ where
     fn v_rfind(&self, target: usize) -> Item {
         let x = self.it.clone().rfind(|e| self.is(e, target));
         self.id(x)
+    }
+    fn any_is(&mut self, target: usize) -> bool {
+        let exp = self.exp.clone();
+        self.it.any(|e| target < exp.len() && e == exp[target])
+    }
+    fn all_not(&mut self, target: usize) -> bool {
+        let exp = self.exp.clone();
+        self.it.all(|e| !(target < exp.len() && e == exp[target]))
+    }
+    fn find_ip(&mut self, target: usize) -> Item {
+        let exp = self.exp.clone();
+        let x = self.it.find(|e| target < exp.len() && *e == exp[target]);
+        self.id(x)
+    }
+    fn rfind_ip(&mut self, target: usize) -> Item {
+        let exp = self.exp.clone();
+        let x = self.it.rfind(|e| target < exp.len() && *e == exp[target]);
+        self.id(x)
+    }
+    fn position_ip(&mut self, target: usize) -> Option<usize> {
+        let exp = self.exp.clone();
+        self.it.position(|e| target < exp.len() && e == exp[target])
+    }
+    fn rposition_ip(&mut self, target: usize) -> Option<usize> {
+        let exp = self.exp.clone();
+        self.it.rposition(|e| target < exp.len() && e == exp[target])
     }
     fn v_cycle_take(&self, t: usize) -> Vec<Item> {
         let v: Vec<E> = self.it.clone().cycle().take(t).collect();
@@ -495,6 +528,12 @@ pub enum Kind {
     VChainSkip,
     VPeekable,
     VIterEq,
+    Any,
+    All,
+    Find,
+    Rfind,
+    Position,
+    Rposition,
 }
 
 /// (kind, script name, takes k, takes t)
@@ -535,6 +574,12 @@ pub const KINDS: &[(Kind, &str, bool, bool)] = &[
     (Kind::VChainSkip, "v_chain_skip", true, false),
     (Kind::VPeekable, "v_peekable", false, false),
     (Kind::VIterEq, "v_iter_eq", false, false),
+    (Kind::Any, "any", true, false),
+    (Kind::All, "all", true, false),
+    (Kind::Find, "find", true, false),
+    (Kind::Rfind, "rfind", true, false),
+    (Kind::Position, "position", true, false),
+    (Kind::Rposition, "rposition", true, false),
 ];
 
 #[derive(Clone, Debug, PartialEq)]
@@ -564,7 +609,7 @@ impl Op {
     }
     /// k arguments that are *counts* (where "huge" means something); targets of find/position are not
     pub fn k_is_count(&self) -> bool {
-        self.has_k() && !matches!(self.kind, Kind::VPosition | Kind::VRposition | Kind::VFind | Kind::VRfind | Kind::CloneFrom | Kind::VCycleTake)
+        self.has_k() && !matches!(self.kind, Kind::VPosition | Kind::VRposition | Kind::VFind | Kind::VRfind | Kind::CloneFrom | Kind::VCycleTake | Kind::Any | Kind::All | Kind::Find | Kind::Rfind | Kind::Position | Kind::Rposition)
     }
     pub fn kopt(&self) -> Option<usize> {
         if self.k_is_count() {
@@ -628,6 +673,7 @@ pub const NAMES: &[&str] = &[
     "op_skip_back", "op_enumerate_back", "op_step_by_back", "op_v_last", "op_v_count", "op_v_fold", "op_v_rfold",
     "op_v_collect", "op_v_rev_collect", "op_v_position", "op_v_rposition", "op_v_find", "op_v_rfind", "op_clone_from",
     "op_v_cycle_take", "op_v_zip_rev", "op_v_chain_skip", "op_v_peekable", "op_v_iter_eq",
+    "op_any", "op_all", "op_find", "op_rfind", "op_position", "op_rposition",
 ];
 const C_HUGE_FRESH: usize = 0;
 const C_HUGE_FRONT: usize = 1;
@@ -1072,6 +1118,36 @@ impl<'a> Exec<'a> {
                     let s = &slots[hi];
                     item_op!(s.real.v_rfind(k), s.model.clone().rfind(|x| *x == k))
                 }
+                Kind::Any => {
+                    let s = &mut slots[hi];
+                    let g = num_op!(s.real.any_is(k), s.model.any(|x| x == k));
+                    self.trace.u(g as u64);
+                }
+                Kind::All => {
+                    let s = &mut slots[hi];
+                    let g = num_op!(s.real.all_not(k), s.model.all(|x| x != k));
+                    self.trace.u(g as u64);
+                }
+                Kind::Find => {
+                    let s = &mut slots[hi];
+                    item_op!(s.real.find_ip(k), s.model.find(|x| *x == k))
+                }
+                Kind::Rfind => {
+                    let s = &mut slots[hi];
+                    s.consumed_back = true;
+                    item_op!(s.real.rfind_ip(k), s.model.rfind(|x| *x == k))
+                }
+                Kind::Position => {
+                    let s = &mut slots[hi];
+                    let g = num_op!(s.real.position_ip(k), s.model.position(|x| x == k));
+                    self.trace.u(g.map(|x| x as u64 + 1).unwrap_or(0));
+                }
+                Kind::Rposition => {
+                    let s = &mut slots[hi];
+                    s.consumed_back = true;
+                    let g = num_op!(s.real.rposition_ip(k), s.model.rposition(|x| x == k));
+                    self.trace.u(g.map(|x| x as u64 + 1).unwrap_or(0));
+                }
                 Kind::VCycleTake => {
                     let s = &slots[hi];
                     let t = k % (2 * n + 3);
@@ -1280,6 +1356,15 @@ fn advance_shadow(sh: &mut Vec<Model>, n: usize, h: usize, op: &Op) {
                 sh[h] = sh[src].clone();
             }
         }
+        Kind::Any | Kind::Find | Kind::Position => {
+            let _ = sh[h].find(|x| *x == k);
+        }
+        Kind::All => {
+            let _ = sh[h].all(|x| x != k);
+        }
+        Kind::Rfind | Kind::Rposition => {
+            let _ = sh[h].rfind(|x| *x == k);
+        }
         Kind::Drop => {
             if sh.len() > 1 {
                 sh.remove(h);
@@ -1380,6 +1465,12 @@ pub fn gen_ops(rng: &mut Rng, n: usize) -> (Vec<Op>, bool) {
             ad(allow_by_value, 2),                       // v_chain_skip
             ad(allow_by_value, 2),                       // v_peekable
             ad(allow_by_value, 1),                       // v_iter_eq
+            ad(allow_adapters, 2),                       // any
+            ad(allow_adapters, 2),                       // all
+            ad(allow_adapters, 2),                       // find
+            ad(allow_adapters && allow_back, 2),         // rfind
+            ad(allow_adapters, 2),                       // position
+            ad(allow_adapters && allow_back, 2),         // rposition
         ];
         let kind = KINDS[rng.weighted(&w)].0;
         let mut op = Op::new(kind, h);
